@@ -37,6 +37,7 @@ import (
 	"fmt"
 	"math/rand"
 	"os"
+	"sort"
 	"strconv"
 	"strings"
 	"testing"
@@ -52,6 +53,7 @@ import (
 	"github.com/lightningnetwork/lnd/chanstate"
 	"github.com/lightningnetwork/lnd/fn/v2"
 	"github.com/lightningnetwork/lnd/input"
+	"github.com/lightningnetwork/lnd/keychain"
 	"github.com/lightningnetwork/lnd/kvdb"
 	"github.com/lightningnetwork/lnd/lntypes"
 	"github.com/lightningnetwork/lnd/lnwallet"
@@ -488,6 +490,270 @@ func (t *c05cTerms) descFields(prefix string, sd *input.SignDescriptor) string {
 }
 
 // ---------------------------------------------------------------------------
+// byte-level dump of a resolution set (compared with the Lean codec model)
+// ---------------------------------------------------------------------------
+
+func c05cHex(b []byte) string {
+	if len(b) == 0 {
+		return "-"
+	}
+	return hex.EncodeToString(b)
+}
+
+func c05cOp(op wire.OutPoint) string {
+	return hex.EncodeToString(op.Hash[:]) + ":" + strconv.FormatUint(uint64(op.Index), 10)
+}
+
+// fam,idx,key,single,double,ws,val,pk,ht,tap,cb,method,ii
+func c05cSD(sd *input.SignDescriptor) string {
+	var key, dbl []byte
+	if sd.KeyDesc.PubKey != nil {
+		key = sd.KeyDesc.PubKey.SerializeCompressed()
+	}
+	if sd.DoubleTweak != nil {
+		dbl = sd.DoubleTweak.Serialize()
+	}
+	val, pk := int64(0), []byte(nil)
+	if sd.Output != nil {
+		val, pk = sd.Output.Value, sd.Output.PkScript
+	}
+	return fmt.Sprintf("%d,%d,%s,%s,%s,%s,%d,%s,%d,%s,%s,%d,%d", uint32(sd.KeyDesc.Family),
+		sd.KeyDesc.Index, c05cHex(key), c05cHex(sd.SingleTweak), c05cHex(dbl),
+		c05cHex(sd.WitnessScript), uint64(val), c05cHex(pk), uint32(sd.HashType),
+		c05cHex(sd.TapTweak), c05cHex(sd.ControlBlock), uint8(sd.SignMethod), sd.InputIndex)
+}
+
+// ver/lock/in|in/out|out   in = hash:idx:sigscript:seq:wit   wit = ~ | item.item (e = empty item)
+func c05cTx(tx *wire.MsgTx) string {
+	if tx == nil {
+		return "-"
+	}
+	var ins, outs []string
+	for _, in := range tx.TxIn {
+		wit := "~"
+		if len(in.Witness) > 0 {
+			var items []string
+			for _, it := range in.Witness {
+				if len(it) == 0 {
+					items = append(items, "e")
+				} else {
+					items = append(items, hex.EncodeToString(it))
+				}
+			}
+			wit = strings.Join(items, ".")
+		}
+		ins = append(ins, fmt.Sprintf("%s:%s:%d:%s", c05cOp(in.PreviousOutPoint),
+			c05cHex(in.SignatureScript), in.Sequence, wit))
+	}
+	for _, out := range tx.TxOut {
+		outs = append(outs, fmt.Sprintf("%d:%s", uint64(out.Value), c05cHex(out.PkScript)))
+	}
+	if len(outs) == 0 {
+		outs = []string{"~"}
+	}
+	return fmt.Sprintf("%d/%d/%s/%s", uint32(tx.Version), tx.LockTime, strings.Join(ins, "|"),
+		strings.Join(outs, "|"))
+}
+
+func c05cDetails(d *input.SignDetails) string {
+	if d == nil {
+		return "-"
+	}
+	var sig []byte
+	if d.PeerSig != nil {
+		sig = d.PeerSig.Serialize()
+	}
+	return fmt.Sprintf("%s;%d;%s", c05cSD(&d.SignDesc), uint32(d.SigHashType), c05cHex(sig))
+}
+
+// dumpRes prints every field of a resolution set the store is responsible for.
+func (c *c05cRun) dumpRes(ctx, which string, r *ContractResolutions) {
+	commit, anchor := "-", "-"
+	if cr := r.CommitResolution; cr != nil {
+		commit = fmt.Sprintf("%s;%d;%s", c05cOp(cr.SelfOutPoint), cr.MaturityDelay,
+			c05cSD(&cr.SelfOutputSignDesc))
+	}
+	if ar := r.AnchorResolution; ar != nil {
+		anchor = fmt.Sprintf("%s;%s", c05cOp(ar.CommitAnchor), c05cSD(&ar.AnchorSignDescriptor))
+	}
+	c.pf("rs ctx=%s which=%s hash=%s commit=%s anchor=%s nin=%d nout=%d\n", ctx, which,
+		hex.EncodeToString(r.CommitHash[:]), commit, anchor, len(r.HtlcResolutions.IncomingHTLCs),
+		len(r.HtlcResolutions.OutgoingHTLCs))
+	for i := range r.HtlcResolutions.IncomingHTLCs {
+		h := &r.HtlcResolutions.IncomingHTLCs[i]
+		c.pf("rin ctx=%s which=%s i=%d pre=%s tx=%s csv=%d claim=%s sd=%s det=%s\n", ctx, which, i,
+			hex.EncodeToString(h.Preimage[:]), c05cTx(h.SignedSuccessTx), h.CsvDelay,
+			c05cOp(h.ClaimOutpoint), c05cSD(&h.SweepSignDesc), c05cDetails(h.SignDetails))
+	}
+	for i := range r.HtlcResolutions.OutgoingHTLCs {
+		h := &r.HtlcResolutions.OutgoingHTLCs[i]
+		c.pf("rout ctx=%s which=%s i=%d expiry=%d tx=%s csv=%d claim=%s sd=%s det=%s\n", ctx, which, i,
+			h.Expiry, c05cTx(h.SignedTimeoutTx), h.CsvDelay, c05cOp(h.ClaimOutpoint),
+			c05cSD(&h.SweepSignDesc), c05cDetails(h.SignDetails))
+	}
+}
+
+func c05cCtrlMap(m resolverCtrlBlocks) string {
+	if len(m) == 0 {
+		return "-"
+	}
+	var es []string
+	for id, cb := range m {
+		es = append(es, hex.EncodeToString(id[:32])+":"+
+			strconv.FormatUint(uint64(binary.BigEndian.Uint32(id[32:])), 10)+"@"+c05cHex(cb))
+	}
+	sort.Strings(es)
+	return strings.Join(es, ",")
+}
+
+// storeBlobs reads the raw values LogContractResolutions wrote.
+func c05cStoreBlobs(db kvdb.Backend, scope []byte) (vals [4][]byte, present [4]bool) {
+	keys := [4][]byte{resolutionsKey, resolutionsSignDetailsKey, anchorResolutionKey, taprootDataKey}
+	_ = kvdb.View(db, func(tx kvdb.RTx) error {
+		b := tx.ReadBucket(scope)
+		if b == nil {
+			return nil
+		}
+		for i, k := range keys {
+			if v := b.Get(k); v != nil {
+				vals[i] = append([]byte{}, v...)
+				present[i] = true
+			}
+		}
+		return nil
+	}, func() {})
+	return vals, present
+}
+
+var c05cBlobNames = [4]string{"resolutions", "signdetails", "anchor", "taproot"}
+
+// codecTie prints the raw stored bytes, the decoded taproot aux data and the
+// reloaded set; then stores damaged values (truncated / extended / one byte
+// changed) and reports what the REAL FetchContractResolutions makes of them.
+func (c *c05cRun) codecTie(ctx string, db kvdb.Backend, arbLog *boltArbitratorLog,
+	fresh, reload *ContractResolutions) {
+
+	scope := arbLog.scopeKey[:]
+	vals, present := c05cStoreBlobs(db, scope)
+	c.dumpRes(ctx, "fresh", fresh)
+	for i := 0; i < 3; i++ {
+		h := "absent"
+		if present[i] {
+			h = c05cHex(vals[i])
+		}
+		c.pf("blob ctx=%s key=%s hex=%s\n", ctx, c05cBlobNames[i], h)
+	}
+	if present[3] {
+		tc := newTaprootBriefcase()
+		if err := tc.Decode(bytes.NewReader(vals[3])); err != nil {
+			c.pf("aux ctx=%s written=1 => err:decode\n", ctx)
+		} else {
+			cb := tc.CtrlBlocks.Val
+			c.pf("aux ctx=%s written=1 len=%d commit=%s tweak=%s in=%s out=%s second=%s => ok\n", ctx,
+				len(vals[3]), c05cHex(cb.CommitSweepCtrlBlock), c05cHex(tc.TapTweaks.Val.AnchorTweak),
+				c05cCtrlMap(cb.IncomingHtlcCtrlBlocks), c05cCtrlMap(cb.OutgoingHtlcCtrlBlocks),
+				c05cCtrlMap(cb.SecondLevelCtrlBlocks))
+		}
+	} else {
+		c.pf("aux ctx=%s written=0 => ok\n", ctx)
+	}
+	if reload == nil {
+		c.pf("rsend ctx=%s which=reload => err\n", ctx)
+		return
+	}
+	c.dumpRes(ctx, "reload", reload)
+	c.pf("rsend ctx=%s which=reload => ok\n", ctx)
+
+	// damaged values
+	put := func(key, val []byte) {
+		_ = kvdb.Update(db, func(tx kvdb.RwTx) error {
+			b := tx.ReadWriteBucket(scope)
+			if b == nil {
+				return nil
+			}
+			return b.Put(key, val)
+		}, func() {})
+	}
+	keys := [3][]byte{resolutionsKey, resolutionsSignDetailsKey, anchorResolutionKey}
+	nMut := 2
+	for m := 0; m < nMut; m++ {
+		k := c.r.Intn(3)
+		if !present[k] || len(vals[k]) < 2 {
+			continue
+		}
+		orig := vals[k]
+		var mut []byte
+		kind := ""
+		switch c.r.Intn(4) {
+		case 0:
+			cut := 1 + c.r.Intn(len(orig)-1)
+			mut, kind = append([]byte{}, orig[:cut]...), fmt.Sprintf("cut%d", cut)
+		case 1:
+			mut = append(append([]byte{}, orig...), byte(c.r.Intn(256)), byte(c.r.Intn(256)))
+			kind = "extend"
+		default:
+			// one byte changed; the resolutions value carries element counts
+			// that size allocations, so only the other two values are damaged
+			// this way
+			if k == 0 {
+				cut := len(orig) - 1 - c.r.Intn(40)%len(orig)
+				if cut < 1 {
+					cut = 1
+				}
+				mut, kind = append([]byte{}, orig[:cut]...), fmt.Sprintf("cut%d", cut)
+				break
+			}
+			pos := c.r.Intn(len(orig))
+			mut = append([]byte{}, orig...)
+			nv := byte(c.r.Intn(256))
+			switch c.r.Intn(3) {
+			case 0:
+				nv = mut[pos] + 1
+			case 1:
+				nv = mut[pos] ^ 0x80
+			}
+			if nv == mut[pos] {
+				nv++
+			}
+			mut[pos] = nv
+			kind = fmt.Sprintf("flip%d", pos)
+		}
+		put(keys[k], mut)
+		var (
+			got *ContractResolutions
+			res = "ok"
+		)
+		func() {
+			defer func() {
+				if r := recover(); r != nil {
+					res = "panic"
+				}
+			}()
+			var err error
+			got, err = arbLog.FetchContractResolutions()
+			if err != nil {
+				res = "err"
+				msg := err.Error()
+				for _, w := range []string{"pubkey", "public key", "signature", "malformed", "invalid sig",
+					"not on the", "curve"} {
+					if strings.Contains(strings.ToLower(msg), w) {
+						res = "err:crypto"
+					}
+				}
+			}
+		}()
+		put(keys[k], orig)
+		which := fmt.Sprintf("mut%d", m)
+		c.pf("damage ctx=%s which=%s key=%s kind=%s hex=%s => %s\n", ctx, which, c05cBlobNames[k], kind,
+			c05cHex(mut), res)
+		if res == "ok" {
+			c.dumpRes(ctx, which, got)
+		}
+		c.pf("rsend ctx=%s which=%s => %s\n", ctx, which, res)
+	}
+}
+
+// ---------------------------------------------------------------------------
 // one probe
 // ---------------------------------------------------------------------------
 
@@ -693,6 +959,14 @@ func (c *c05cRun) probe(x int, src string, h uint64, commitTx *wire.MsgTx,
 	c.pf("probe n=%d x=%s src=%s h=%d tag=court mirror=- => ok\n", c.probeID, xn, src, h)
 	c.pf("persist ctx=%s what=resolutions commit=%d anchor=%d in=%d out=%d => %s\n", ctx,
 		c05cB2i(cr != nil), c05cB2i(ar != nil), nIn, nOut, res)
+	if res != "err:log" && res != "panic" {
+		// byte-level tie, also when the real reader rejects what was written
+		rl := reload
+		if res != "ok" {
+			rl = nil
+		}
+		c.codecTie(ctx, db, arbLog, fresh, rl)
+	}
 	if res != "ok" {
 		return
 	}
@@ -719,7 +993,8 @@ func (c *c05cRun) probe(x int, src string, h uint64, commitTx *wire.MsgTx,
 		f, r := &fresh.HtlcResolutions.IncomingHTLCs[i], &reload.HtlcResolutions.IncomingHTLCs[i]
 		c.desc(ctx, "htlcSweep", f.HtlcPoint().Index, aux, terms, &f.SweepSignDesc, &r.SweepSignDesc)
 		if (f.SignDetails == nil) != (r.SignDetails == nil) || f.ClaimOutpoint != r.ClaimOutpoint ||
-			f.CsvDelay != r.CsvDelay || (f.SignedSuccessTx == nil) != (r.SignedSuccessTx == nil) {
+			f.CsvDelay != r.CsvDelay || c05cTx(f.SignedSuccessTx) != c05cTx(r.SignedSuccessTx) ||
+			f.Preimage != r.Preimage {
 
 			c.pf("persist ctx=%s what=incomingfields idx=%d => err:changed\n", ctx, f.HtlcPoint().Index)
 		}
@@ -738,7 +1013,7 @@ func (c *c05cRun) probe(x int, src string, h uint64, commitTx *wire.MsgTx,
 		c.desc(ctx, "htlcSweep", f.HtlcPoint().Index, aux, terms, &f.SweepSignDesc, &r.SweepSignDesc)
 		if (f.SignDetails == nil) != (r.SignDetails == nil) || f.ClaimOutpoint != r.ClaimOutpoint ||
 			f.CsvDelay != r.CsvDelay || f.Expiry != r.Expiry ||
-			(f.SignedTimeoutTx == nil) != (r.SignedTimeoutTx == nil) {
+			c05cTx(f.SignedTimeoutTx) != c05cTx(r.SignedTimeoutTx) {
 
 			c.pf("persist ctx=%s what=outgoingfields idx=%d => err:changed\n", ctx, f.HtlcPoint().Index)
 		}
@@ -1131,6 +1406,21 @@ func TestVerifC05Court(t *testing.T) {
 				thaw = uint32(600_000 + r.Intn(100_000))
 				alice.State().ThawHeight = thaw
 				bob.State().ThawHeight = thaw
+			}
+			// key locators: the fixture leaves them all zero; give every base
+			// point its own family and a boundary-biased index, so that the
+			// locator fields of the stored descriptors carry information
+			locIdx := []uint32{0, 1, 255, 256, 65535, 65536, 1 << 31, 0xffffffff}
+			for x := 0; x < 2; x++ {
+				cfg := &ch[x].State().LocalChanCfg
+				for fi, kd := range []*keychain.KeyDescriptor{&cfg.MultiSigKey, &cfg.RevocationBasePoint,
+					&cfg.PaymentBasePoint, &cfg.DelayBasePoint, &cfg.HtlcBasePoint} {
+
+					kd.KeyLocator = keychain.KeyLocator{
+						Family: keychain.KeyFamily(uint32(fi) + uint32(r.Intn(3))*1000),
+						Index:  locIdx[r.Intn(len(locIdx))] + uint32(r.Intn(2)),
+					}
+				}
 			}
 			ast := alice.State()
 			fmt.Fprintf(w, "CASE c%d prop=c05 stream=court type=%s anchors=%d taproot=%d lease=%d "+
